@@ -386,49 +386,31 @@ def check_reserve_post(ctx, db, config):
         cap_lv = ('fld', ('deref', ('param', 1)), 'collections::raw_vec::RawVec.cap')
         cap0 = ('load', cap_lv, 0)
         MAXU = C((1 << 64) - 1)
-        for bi, st, v in r.returns:
-            capnow = I.read(st.copy(), cap_lv)
-            fid = ((b['id'], 0),)
-            pf = I.phi_facts.get((fid, bi), {})
-            if capnow[0] == 'phi' and capnow[1][:2] == (fid, bi):
-                cases = [(p, x, set(pf.get(p, ()))) for p, x in capnow[2]]
-            elif pf:
-                cases = [(p, capnow, set(fs)) for p, fs in pf.items()]
+        # the returned Result and the capacity field, flattened together over the merge points they share: every way of
+        # returning Ok must entail used + extra <= cap
+        if r.ret is None or r.ret_state is None:
+            ctx.violation('R3', fn, 'postcondition', '%s has no analysable return' % fn, b.get('span'))
+            continue
+        capnow = I.read(r.ret_state.copy(), cap_lv)
+        for (rv, capv), facts in arena.joint_alternatives(I, [r.ret, capnow], set(r.ret_state.facts)):
+            n += 1
+            vs = I.variants_in(rv) if rv is not None else {None}
+            errpath = (None not in vs and not (vs & {'Ok'})) or (any(f[0] == 'is' and f[2] in ('Err', 'Break') for f in facts) and not any(f[0] == 'is' and f[2] in ('Ok', 'Continue') for f in facts))
+            P = prover.Prover(I, facts, use_J=False, extra_axioms={('le', used, cap0)})
+            okv = errpath or P.le(app('add', used, extra), capv)
+            if not okv:
+                # early return: extra <= cap().wrapping_sub(used), cap() = usize::MAX for zero-sized T else self.cap
+                for f in facts:
+                    if f[0] == 'le' and f[1] == extra and f[2][0] == 'app' and f[2][1] == 'wsub' and f[2][3] == used:
+                        capt = f[2][2]
+                        alts = [x for _, x in capt[2]] if capt[0] == 'phi' else [capt]
+                        if all(x == cap0 or x == MAXU for x in alts) and capv == cap0:
+                            okv = True
+                    # the same test written the other way round: the slow path is taken under cap().wrapping_sub(used) < extra
+                    if f[0] == 'le' and f[1] == extra and f[2][0] == 'phi':
+                        pass
+            if okv:
+                ctx.ok('R3', '%s: a return alternative entails used + extra <= cap (or is an Err path)' % fn, 'joint alternatives of (result, cap) with the facts of their edges (given used <= cap)')
             else:
-                cases = [('only', capnow, set(st.facts))]
-            for p, capv, facts in cases:
-                n += 1
-                P = prover.Prover(I, facts, use_J=False, extra_axioms={('le', used, cap0)})
-                errpath = any(f[0] == 'is' and f[2] in ('Err', 'Break') for f in facts) and not any(f[0] == 'is' and f[2] in ('Ok', 'Continue') for f in facts)
-                okv = errpath or P.le(app('add', used, extra), capv)
-                if not okv and capv[0] == 'phi':
-                    # the capacity and the returned Result were merged at the same point: pair them up
-                    retv = v
-                    if retv[0] == 'phi' and retv[1][:2] == (fid, bi):
-                        retv = dict(retv[2]).get(p, retv)
-                    if retv[0] == 'phi' and retv[1][:2] == capv[1][:2]:
-                        rmap = dict(retv[2])
-                        pf2 = I.phi_facts.get(capv[1][:2], {})
-                        allok = True
-                        for p2, cx in capv[2]:
-                            rv2 = rmap.get(p2)
-                            vs = I.variants_in(rv2) if rv2 is not None else {None}
-                            if None not in vs and not (vs & {'Ok'}):
-                                continue        # Err alternative: no promise
-                            P2 = prover.Prover(I, facts | set(pf2.get(p2, ())), use_J=False, extra_axioms={('le', used, cap0)})
-                            if not P2.le(app('add', used, extra), cx):
-                                allok = False
-                        okv = allok
-                if not okv:
-                    # early return: extra <= cap().wrapping_sub(used), cap() = usize::MAX for zero-sized T else self.cap
-                    for f in facts:
-                        if f[0] == 'le' and f[1] == extra and f[2][0] == 'app' and f[2][1] == 'wsub' and f[2][3] == used:
-                            capt = f[2][2]
-                            alts = [x for _, x in capt[2]] if capt[0] == 'phi' else [capt]
-                            if all(x == cap0 or x == MAXU for x in alts) and capv == cap0:
-                                okv = True
-                if okv:
-                    ctx.ok('R3', '%s: return via bb%s entails used + extra <= cap (or is an Err path)' % (fn, p), 'facts of that predecessor (given used <= cap)')
-                else:
-                    ctx.violation('R3', fn, 'postcondition', '%s can return successfully without the path establishing used_cap + needed_extra_cap <= capacity (a wrapped sum would let callers write past the buffer)' % fn, b.get('span'))
+                ctx.violation('R3', fn, 'postcondition', '%s can return successfully without the path establishing used_cap + needed_extra_cap <= capacity (a wrapped sum would let callers write past the buffer)' % fn, b.get('span'))
     ctx.floor('R3', n, 2, 'successful returns of the reserve family')
